@@ -17,10 +17,10 @@ const logqlPkg = "internal/logql"
 type lineKind int
 
 const (
-	lineParam    lineKind = iota // the line parameter, unchanged
-	lineInner                    // line result of an inner Process call
-	lineConst                    // a constant (typically "")
-	lineOther                    // anything else: may rewrite
+	lineParam lineKind = iota // the line parameter, unchanged
+	lineInner                 // line result of an inner Process call
+	lineConst                 // a constant (typically "")
+	lineOther                 // anything else: may rewrite
 )
 
 func (k lineKind) String() string {
@@ -223,9 +223,9 @@ func returnsOnlyParamLine(fn *ssa.Function, want *types.Signature) bool {
 type stageClass int
 
 const (
-	classFilter        stageClass = iota // may drop; never changes the line
-	classKeepAllParam                    // never drops, never changes the line
-	classKeepAllRewrite                  // never drops, may rewrite the line
+	classFilter         stageClass = iota // may drop; never changes the line
+	classKeepAllParam                     // never drops, never changes the line
+	classKeepAllRewrite                   // never drops, may rewrite the line
 )
 
 func (c stageClass) String() string {
